@@ -29,6 +29,8 @@ inductive Event where
   | returnDocument | exceptionDocument | returnString | exceptionString | closed
   | beforeDeserialize | afterDeserialize | beforeSerialize | afterSerialize
   | serialize      -- HttpRpc as output protocol fires `serialize` instead of before/after_serialize
+  | redirect | redirectException   -- the function raised a Redirect: do_redirect() worked / raised
+  | wsdl | wsdlException           -- WsgiApplication answering ?wsdl
   | wsgiCall | wsgiReturn | wsgiException | wsgiClose
   | other   -- any name the modelled pipeline never fires (method_accept_document, method_return_push, ...)
   deriving DecidableEq, Repr
@@ -58,6 +60,8 @@ inductive Shape where
   | none        -- declares one, returns None
   | value       -- returns a value
   | generator   -- declares an iterable, returns a generator
+  | emptyGenerator  -- ... that yields nothing
+  | ignored     -- returns spyne.Ignored(...)
   deriving DecidableEq, Repr
 
 /-- the pipeline stage at which the single injected failure happens -/
@@ -71,6 +75,9 @@ inductive Stage where
   | deserialize    -- in_protocol.deserialize                 (invalid argument)
   | dispatch       -- Application.call_wrapper fails before the user function is entered
   | user           -- the user function raises
+  | redirect       -- the user function raises a Redirect whose do_redirect() succeeds: not a fault
+  | redirectFail   -- ... whose do_redirect() raises
+  | genBody        -- the body of the returned generator raises before its first item
   | serialize      -- out_protocol.serialize                  (unserialisable return value)
   deriving DecidableEq, Repr
 
@@ -93,12 +100,25 @@ inductive ProcCase where
   | callRaise (k : ExcKind)   -- a method_call listener raises
   | dispatchRaise (k : ExcKind) -- call_wrapper raises before entering the user function
   | userRaise (k : ExcKind)   -- the user function raises
+  | redirect                  -- ... a Redirect, do_redirect() succeeds
+  | redirectFail              -- ... a Redirect, do_redirect() raises
   | retRaise (k : ExcKind)    -- a method_return_object listener raises
   deriving DecidableEq, Repr
 
 /-- the keyword through which an EventManager is given to @rpc -/
 inductive Spelling where
   | evmgr | evmgrs | eventManager | eventManagers
+  deriving DecidableEq, Repr
+
+/-- who fires: decides which managers hear it -/
+inductive Src where
+  | ctx (hasDesc : Bool)   -- MethodContext.fire_event / close; `hasDesc`: ctx.descriptor is set
+  | inProt | outProt | transport
+  deriving DecidableEq, Repr
+
+inductive Step where
+  | fire (src : Src) (ev : Event)
+  | user
   deriving DecidableEq, Repr
 
 /-- one measurement: the events a function fired (as seen by a listener registered first on the
@@ -126,6 +146,12 @@ structure Facts14 where
   /-- WsgiApplication.handle_rpc when get_out_string raises: what is fired before the error response
       is built -/
   wsgiSerFail : Meas
+  /-- WsgiApplication.handle_rpc when the body of the returned generator raises before its first item -/
+  wsgiGenFail : ExcKind → Meas
+  /-- WsgiApplication answering a ?wsdl request -/
+  wsdlSteps : List Step
+  /-- ... when building the document raises -/
+  wsdlFailSteps : List Step
   /-- WsgiApplication.handle_rpc when reconstructing the request input raises (a Fault: RequestTooLongError,
       ValidationError for the Content-Length; another exception: the input stream fails) -/
   wsgiRefuse : ExcKind → Meas
@@ -139,17 +165,6 @@ structure Facts14 where
   /-- does create_out_string leave ctx.out_string None for a result of this shape / for a fault -/
   leavesNone : OutProto → Shape → Bool
   leavesNoneFault : OutProto → Bool
-
-/-- who fires: decides which managers hear it -/
-inductive Src where
-  | ctx (hasDesc : Bool)   -- MethodContext.fire_event / close; `hasDesc`: ctx.descriptor is set
-  | inProt | outProt | transport
-  deriving DecidableEq, Repr
-
-inductive Step where
-  | fire (src : Src) (ev : Event)
-  | user
-  deriving DecidableEq, Repr
 
 structure Run where
   steps : List Step
@@ -173,12 +188,15 @@ def procCase (inj : Inj) (co ro : Option ExcKind) : ProcCase :=
   | none =>
     if inj.stage = .dispatch then .dispatchRaise inj.kind else
     if inj.stage = .user then .userRaise inj.kind else
+    if inj.stage = .redirect then .redirect else
+    if inj.stage = .redirectFail then .redirectFail else
     match ro with
     | some k => .retRaise k
     | none => .ok
 
 def ProcCase.faulted : ProcCase → Bool
   | .ok => false
+  | .redirect => false
   | _ => true
 
 /-- places where only the protocols' own managers are fired; filled in per protocol by `fill` -/
@@ -229,7 +247,7 @@ def skeleton (F : Facts14) (noneOk noneErr : Bool) (t : Transport) (stage : Stag
     let m := F.getIn kind
     if m.escapes then ⟨start ++ [.slot .deserPartial] ++ sk (symSteps true m.evs), true⟩
     else ⟨start ++ [.slot .deserPartial] ++ sk (symSteps true m.evs) ++ errTail F noneErr t true, false⟩
-  | .none | .dispatch | .user | .serialize =>
+  | .none | .dispatch | .user | .redirect | .redirectFail | .genBody | .serialize =>
     let deser : List SStep := [.slot .deserBefore, .slot .deserAfter]
     let pc := procCase ⟨stage, kind, false⟩ co ro
     let proc := sk (symSteps true (F.proc pc).evs)
@@ -239,7 +257,12 @@ def skeleton (F : Facts14) (noneOk noneErr : Bool) (t : Transport) (stage : Stag
     else if pc.faulted then
       -- get_out_object leaves ctx.out_error set
       ⟨start ++ deser ++ proc ++ errTail F noneErr t true, false⟩
-    else if stage = .serialize then
+    else if stage = .genBody ∧ t = .wsgi then
+      -- handle_rpc runs the generator up to its first item before it serialises anything
+      let m := F.wsgiGenFail kind
+      if m.escapes then ⟨start ++ deser ++ proc ++ sk (symSteps true m.evs), true⟩
+      else ⟨start ++ deser ++ proc ++ sk (symSteps true m.evs) ++ errTail F noneErr t true, false⟩
+    else if stage = .serialize ∨ stage = .genBody then
       match t with
       | .serverBase => ⟨start ++ deser ++ proc ++ [.slot .serPartial], true⟩   -- get_out_string raises to the caller
       | .wsgi =>
@@ -259,7 +282,7 @@ def fill (F : Facts14) (c : Cfg) (inner : Bool) : SStep → List Step
   | .slot .deserBefore => fires .inProt [.beforeDeserialize]
   | .slot .deserAfter => fires .inProt [.afterDeserialize]
   | .slot .deserPartial => if inner then fires .inProt [.beforeDeserialize] else []
-  | .slot .serOk => fires .outProt (F.serOk c.outp c.shape)
+  | .slot .serOk => fires .outProt (F.serOk c.outp c.shape)   -- (the events do not depend on the value)
   | .slot .serErr => fires .outProt (F.serErr c.outp)
   | .slot .serPartial => if inner then fires .outProt (F.serPartial c.outp) else []
 
@@ -269,8 +292,12 @@ def unslot : List SStep → List Step
   | .step s :: r => s :: unslot r
   | .slot _ :: r => unslot r
 
+/-- after a successful redirect the response is serialised from `[None]` -/
+def effShape (c : Cfg) (inj : Inj) : Shape :=
+  if inj.stage = .redirect ∧ c.shape ≠ .void then .none else c.shape
+
 def skelOf (F : Facts14) (c : Cfg) (inj : Inj) (co ro : Option ExcKind) : Skel :=
-  skeleton F (F.leavesNone c.outp c.shape) (F.leavesNoneFault c.outp) c.transport inj.stage inj.kind co ro
+  skeleton F (F.leavesNone c.outp (effShape c inj)) (F.leavesNoneFault c.outp) c.transport inj.stage inj.kind co ro
 
 /-- the whole call for an output protocol, a transport and a result shape -/
 def run (F : Facts14) (c : Cfg) (inj : Inj) (co ro : Option ExcKind) : Run :=
